@@ -40,6 +40,7 @@ type SpecCtx struct {
 	freshBase string
 	loopBase  string // watermark at the entry of the loop whose invariant is translated
 	loopPre   *State // state at the entry of that loop (atloop(x))
+	loopHead  *State // state at the head of the current iteration (athead(x)), in step clauses only
 	// inOld: evaluating inside old(): parameter names denote entry values
 	inOld bool
 	// asGoal: the clause is being proved (unfolding() contributes its definition as a hypothesis)
@@ -661,6 +662,13 @@ func (c *SpecCtx) call(x *ast.CallExpr) SVal {
 			}
 			n := *c
 			n.st = c.loopPre
+			return n.tr(x.Args[0])
+		case "athead": // value of the expression at the head of this iteration (step clauses)
+			if c.loopHead == nil {
+				specFail("athead() only inside loop step clauses")
+			}
+			n := *c
+			n.st = c.loopHead
 			return n.tr(x.Args[0])
 		case "freshloop": // allocated since the enclosing loop was entered
 			v := c.tr(x.Args[0])
